@@ -90,6 +90,23 @@ MISSED = {
     "C19-j": "the caller's file of the file-object entry points was never checked with a URL argument; added every combination of entry point, content and URL (also with a fragment)",
     "C20-j": "factory.reopen() was never called after a handler had been closed; added",
     "C20-f": "the same logger name was never configured twice with different 'propagate'; added",
+    # round 6
+    "C02-l": "no accepted text had a key PRESENT WITH THE EMPTY VALUE for a datatype that converts '' (every generated value was non-empty); added empty values, literal and through a reference to an empty %define, in random texts plus two directed texts per schema",
+    "C03-k": "no multi-line text had a closer written with blanks before the type ('</ a>') and the alphabet's Unicode-blank class had degenerated to U+0020; added exhaustive bracket spellings (closer behind open sections, opener, empty form) and padded closers/openers in random texts",
+    "C07-k": 'no %import / package: reference named a namespace package (or any importable thing other than component, plain package or module); added the %import / %include package: stream over every kind of importable thing, by path, from a stream, through %define and through the validator (this stream also found the genuine defect fixed in 89921d0)',
+    "C08-k": "only declared named keys were repeated, never a key of a single-valued arbitrary-key map (<key name='+'>); added the fault kind repeat-arbitrary-key (anywhere later in its container, top level, sections, %include fragments)",
+    "C10-k": 'no document had an element among the text of a character-data element (the family wrote no <description> at all); added the character-data placement table with every element inside / after them, in schema documents, components and <import src> documents',
+    "C10-l": 'duplicate type names were only tried with a non-derived second definition; added derived sectiontypes taking the name of an earlier plain, abstract or derived type or of their own base, any letter case, in documents, components and <import src>',
+    "C11-l": 'no schema had a derived sectiontype without its own prefix under a different effective prefix than its base using relative dotted names; added a generated prefix x extends x component-import family (prefixfam.py) compared with the nearest-enclosing-prefix expansion and the Lean model',
+    "C12-k": 'no schema imported a component package itself, so a no-op %import before a new %import never occurred, and the known-finding signature was broad enough to hide an unimported type being accepted; added schema-level imports, enumerated %import sequences with probe loads on one schema object, a tight unimported-type-accepted signature, vocabulary check after every load',
+    "C13-l": "no text ever used an %import-ed implementer's section type, least of all in a later load without the %import line, and the schema was replaced after every importing load; added import-use / import-broken then use-unimported operations on the same schema object and two directed histories",
+    "C14-l": 'schemas had no handler= attributes and only the configuration half of the load result was compared; added schema streams with handlers and equality of the composite handler (count and delivered (name, value) sequence) between override load and hand-edited load, also against the model',
+    "C15-k": "no arbitrary-key line was named like a sibling section, so key/section order never mattered; added namesake keys for containers with a '+' key and named sections",
+    "C15-l": 'no section type overrode the inherited key type with inherited key names that are not fixed points of it (the family excluded them); added such schemas as a second stream and faithful inherited-name elaboration',
+    "C17-k": "str() was called unguarded, so an exception on an accepted text crashed the check (exit 2), and no nested section repeated an enclosing section's content; added guarded str()/reload reported as C17:str-raises and section chains / random trees over a small pool",
+    "C17-l": 'no line began with a non-blank invisible character (U+FEFF ...), none below a comment / blank / section / import line where str() moves it to line 1; added position streams with ten invisible or exotic-blank line starts',
+    "C18-k": 'file and directory names never began or ended with a blank; added blank-edged names and roots, neighbour decoys without the blank, and a sweep of every alphabet character at start / inside / end of names as top resource through all entry points',
+    "C18-l": "references were only ever written percent-escaped (pathname2url), so no literal '['; added literal and mixed spellings of %include / src / extends references and ordered punctuation pairs inside names ('x[1]y')",
 }
 
 
